@@ -26,6 +26,9 @@ For the table of the current tree (obligations re-evaluated by the kernel on eve
     skip flags, which are `AtomicFlag`s since c5f4aef (shared location `AtomicFlag::value_`, atomic);
   * **`race_free : RaceFree table`** — the full-strength statement — with its whole-program form
     `race_free_program` and the RAII form `race_free_scoped`;
+  * `table_join_certified` / `handle_joined`: `wait()` joins the thread `boot()` created and no function
+    of either role detaches / moves / reassigns the handle — the shape `… ++ [join] ++ tear-down` assumed by
+    `race_free_program` is certified from the table, not assumed;
   * polarity-independent companions, true for whatever the code says: `table_undisciplined_exact`,
     `race_witness_exact` (a member has a racy interleaving iff the regenerated file lists it; the file
     then also carries a `…_counterexample` theorem per member), `race_free_iff`.
@@ -106,6 +109,29 @@ theorem table_reach_certified (r : Role) (m : Nat) :
   cases r
   · exact cert_controller.iff m
   · exact cert_filter.iff m
+
+/-- **must hold — the join is certified from the table**: the filtering thread performs no operation on
+    a thread handle; the controller spawns only in `boot()`, joins only in `wait()`, and otherwise only
+    asks `joinable()` / queries — no function of either role detaches, moves, swaps or reassigns the
+    handle; `wait()` does contain the `join()`; every access row to the handle lies in `boot()`/`wait()`. -/
+theorem table_join_certified :
+    table.joinCertifiedIn (reachClaim .controller) (reachClaim .filter) = true :=
+  join_certified
+
+/-- Consequence for the handle (state machine `hstep`): whatever thread-handle operations the functions
+    reachable by the controller perform after `boot()` has spawned the thread, the handle is never lost
+    (detached / moved / overwritten while the thread may be alive), and once a `join` has been executed
+    — `wait()` contains one — the filtering thread is joined.  This discharges, from the table, the
+    hypothesis of `race_free_program` that nothing of the filtering thread follows the join. -/
+theorem handle_joined (ops : List ThreadOpKind)
+    (hops : ∀ k ∈ ops, k ≠ .spawn ∧ ∃ o ∈ table.threadOps, (reachClaim .controller).testBit o.meth = true ∧ o.kind = k) :
+    hrun .running ops ≠ .lost ∧ (ThreadOpKind.join ∈ ops → hrun .running ops = .joined) := by
+  apply hrun_benign
+  intro k hk
+  obtain ⟨hne, o, ho, hreach, rfl⟩ := hops k hk
+  rcases (joinCertified_ops table _ _ join_certified).2.1 o ho hreach with ⟨hs, _⟩ | hb
+  · exact absurd hs hne
+  · exact hb
 
 /-- **must hold**: every data member of `FilteringAlgorithm` (run_, reset_, teardown_,
     filtering_step_, the mutex, the condition variable, the thread handle) obeys the discipline -/
@@ -205,7 +231,7 @@ def toy : Table :=
     methods := [⟨name% "FilteringAlgorithm::run", 0, false, true⟩, ⟨name% "FilteringAlgorithm::filtering_recursion", 0, false, true⟩],
     accesses := [⟨0, 0, .write, true, [1], 10⟩, ⟨1, 0, .read, true, [1], 20⟩, ⟨0, 2, .read, true, [], 11⟩, ⟨1, 2, .read, true, [], 21⟩,
                  ⟨0, 3, .write, true, [], 12⟩, ⟨1, 3, .read, true, [1], 22⟩],
-    calls := [] }
+    calls := [], threadOps := [] }
 
 /-- controller: lock, write, unlock; then the filtering thread: lock, read, unlock -/
 def toyTrace : List Ev :=
